@@ -10,6 +10,12 @@ that reads a history of operations over three capsule variables:
     4 j   read through the last pointer obtained for capsule j (must still be valid)
     5 j   a = peek_pool()              (library-owned table copied into an allocatable; free_pattern given but
                                         owner(library): nothing may be released)
+    6 j   s = take_label()             (const std::string * +owner(caller): the text is copied into the Fortran
+                                        result and the C++ string released with its own deallocator - strings.yaml
+                                        getConstStringPtrOwnsAlloc)
+    7 j   n = total_len(names(1:j+1))  (char **names +intent(in): a NUL-terminated copy of every element is made
+                                        and released again before the wrapper returns - pointers.yaml acceptCharArrayIn;
+                                        element count j+1 in 2..4, CHARACTER length 3)
 
 ownership.yaml / regression/run/ownership/main.f use exactly this API
 (`intp1 => return_int_ptr_dim_pointer_new(cap)`, `call cap%delete()`), including
@@ -32,6 +38,8 @@ declarations:
 - decl: int *takePool(int *n +intent(out)+hidden) +dimension(n)+owner(caller)+free_pattern(giveback_pool)
 - decl: int *peekPool(int *n +intent(out)+hidden) +dimension(n)+deref(allocatable)+free_pattern(giveback_pool)
 - decl: int poolOutstanding()
+- decl: const std::string *takeLabel() +owner(caller)
+- decl: int totalLen(char **names +intent(in), int n +implied(size(names)))
 patterns:
   giveback_pool: |
     vf_giveback(ptr);
@@ -39,6 +47,9 @@ patterns:
 
 HEADER = """#ifndef OWNLIB_HPP
 #define OWNLIB_HPP
+#include <string>
+const std::string *takeLabel();
+int totalLen(char **names, int n);
 int *takeBuf(int *n);
 int *takePool(int *n);
 int *peekPool(int *n);
@@ -50,6 +61,7 @@ void vf_giveback(void *p);
 IMPL = r"""#include "ownlib.hpp"
 #include <stdio.h>
 #include <stdlib.h>
+#include <string.h>
 static int vf_serial = 0;
 static int vf_out = 0;
 int *takeBuf(int *n)
@@ -80,6 +92,19 @@ int *peekPool(int *n)
     return vf_library_table;
 }
 int poolOutstanding() { return vf_out; }
+const std::string *takeLabel()
+{
+    /* longer than any small-string buffer: a string that is not destroyed leaks its heap block */
+    printf("LABEL\n"); fflush(stdout);
+    return new std::string("a label of forty characters, more or less");
+}
+int totalLen(char **names, int n)
+{
+    int i, t = 0;
+    for (i = 0; i < n; i++) t += (int) strlen(names[i]);
+    printf("NAMES %d %d\n", n, t); fflush(stdout);
+    return t;
+}
 void vf_giveback(void *p)
 {
     if (p == NULL) { printf("GIVEBACK NULL\n"); fflush(stdout); return; }
@@ -128,6 +153,20 @@ subroutine vf_run()
         integer(C_INT), allocatable :: a(:)
         a = peek_pool()
         print '(A,I0,A,I0)', "COPY ", size(a), " ", a(1)
+      end block
+    case (61, 62, 63)
+      block
+        character(len=:), allocatable :: s
+        s = take_label()
+        print '(A,I0)', "STR ", len(s)
+      end block
+    case (71, 72, 73)
+      block
+        character(len=3) :: names(4)
+        integer(C_INT) :: t
+        names = [character(len=3) :: "ab", "c", "def", "g"]
+        t = total_len(names(1:j + 1))
+        print '(A,I0)', "TOTAL ", t
       end block
     case (41)
       print '(A,I0,A,I0)', "READ ", size(p1), " ", p1(1) / 100
@@ -232,6 +271,11 @@ def model(ops):
             lines.append("READ %d %d" % (sizes[ptr[j][1]], ptr[j][1]))
         elif op == 5:
             lines += ["PEEK", "COPY 4 7"]       # a copy of library-owned memory: nothing is given back
+        elif op == 6:
+            lines += ["LABEL", "STR 41"]
+        elif op == 7:
+            t = sum(len(x) for x in ["ab", "c", "def", "g"][:j + 1])
+            lines += ["NAMES %d %d" % (j + 1, t), "TOTAL %d" % t]
         out = sum(1 for h in caps.values() if h is not None and h[0] == "pool")
         lines.append("OUT %d" % out)
     for j in (1, 2, 3):
